@@ -278,3 +278,38 @@ Fixpoint walk (d : nat) (ft : N) (bs : list N) : option (bool * list N) :=
   match d with O => None | S d' => walk_body (walk d') ft bs end.
 Definition has_oversize_list (bs : list N) : bool :=
   match walk 70 12 bs with Some (true, _) => true | _ => false end.
+
+(* ---- second classifier: a SchemaElement of the footer's schema list (FileMetaData field 2, located by the model of
+   parquet_schema_from_bytes) declares num_children (field 5, i32) beyond 2^14 and beyond the bytes that follow it:
+   schema_from_array_helper reserves a Vec of that many children *)
+Fixpoint se_fields (fuel : nat) (last : Z) (bs : list N) : option (bool * list N) :=
+  match fuel with
+  | O => None
+  | S f =>
+    match read_field_begin last bs with
+    | Err _ => None
+    | Ok (ty, id) r =>
+      if ty =? 0 then Some (false, r)
+      else if (id =? 5)%Z && (ty =? 5) then
+        match read_i32 r with
+        | Err _ => None
+        | Ok v r' => if (16384 <? v)%Z && (Z.of_nat (length r') <? v)%Z then Some (true, r') else se_fields f id r'
+        end
+      else match skip_default ty r with Err _ => None | Ok _ r' => se_fields f id r' end
+    end
+  end.
+Fixpoint se_list (fuel : nat) (n : N) (bs : list N) : bool :=
+  if n =? 0 then false else
+  match fuel with
+  | O => false
+  | S f => match se_fields (S (length bs)) 0%Z bs with
+           | Some (true, _) => true
+           | Some (false, r) => se_list f (n - 1) r
+           | None => false
+           end
+  end.
+Definition schema_children_oversize (bs : list N) : bool :=
+  match schema_probe bs with
+  | Ok r _ => match read_list_begin r with Ok (_, n) r' => se_list (S (length r')) n r' | Err _ => false end
+  | Err _ => false
+  end.
